@@ -131,12 +131,13 @@ def run(ctx):
       wkind = ('int', 'float', 'np.float32', 'np.int64', 'ndarray0', 'jax')[(ci + 2 * oi) % 6]
       conv = {'int': lambda w: w, 'float': float, 'np.float32': np.float32, 'np.int64': np.int64, 'ndarray0': lambda w: np.array(w, np.float32),
               'jax': lambda w: jnp.asarray(w, jnp.float32)}[wkind]
+      wobjs = [conv(w) for w in weights]
       if fn == 'sum':
         items = list(trees)
       elif fn == 'mean':
-        items = list(zip(trees, [conv(w) for w in weights]))
+        items = list(zip(trees, wobjs))
       else:
-        items = [(b'c%d' % i, t, conv(w)) for i, (t, w) in enumerate(zip(trees, weights))]
+        items = [(b'c%d' % i, t, wo) for i, (t, wo) in enumerate(zip(trees, wobjs))]
       src = OnePassSource(items)
       arg = items if container == 'list' else (src if container == 'gen' else map(lambda x: x, src))
       cfg = dict(fn=fn, inputs=[ins[i] for i in order], leaves=kind, container=container, weight_type=wkind)
@@ -168,6 +169,12 @@ def run(ctx):
                       f'got {[np.asarray(a).tolist() for a in lv_out]}', replay={'cfg': cfg, 'expected': [b.tolist() for b in lv_exp]})
         continue
       harmed = check_inputs_alive(trees, snaps)
+      if not harmed and fn != 'sum':
+        try:
+          if any(float(np.asarray(o)) != float(w) for o, w in zip(wobjs, weights)):
+            harmed = f'the caller\'s weights changed: {[float(np.asarray(o)) for o in wobjs]} (were {weights})'
+        except RuntimeError:
+          harmed = 'a weight array was deleted'
       if harmed:
         ctx.violation(f'replay:{fn}:inputs-harmed', f'{harmed} after the call for {cfg}', replay={'cfg': cfg})
         continue
@@ -181,9 +188,13 @@ def run(ctx):
   ctx.sample({'leg': 'R', 'case': cases[len(cases) // 2]})
   # Clip replay
   clip_n = 0
-  for c in rc.json:
-    v = c['v']
-    bound = c['cn'] / c['cd']
+  for cj, c in enumerate(rc.json):
+    # clipping commutes with positive scaling of tree and bound together (exactly for powers of two): every third case is
+    # replayed on a tiny tree (2^-30), every third on a large one (2^20)
+    sc = (1.0, 2.0 ** -30, 2.0 ** 20)[cj % 3]
+    v = [x * sc for x in c['v']]
+    bound = c['cn'] / c['cd'] * sc
+    c = dict(c, num=[x * sc for x in c['num']])
     for kind in ('jax', 'np'):
       mk = jnp.array if kind == 'jax' else np.array
       # split the vector over two leaves of different shape
@@ -197,7 +208,7 @@ def run(ctx):
       clip_n += 1
       ctx.case(key=('clip', tuple(v), c['cn'], c['cd'], kind), nontrivial=sum(x * x for x in v) * c['cd'] ** 2 > c['cn'] ** 2)
       cfg = dict(fn='tree_clip_by_global_norm', v=v, max_norm=bound, leaves=kind)
-      if np.any(np.isnan(flat)) or not np.allclose(flat, exp, rtol=2e-6, atol=1e-7):
+      if np.any(np.isnan(flat)) or not np.allclose(flat, exp, rtol=2e-6, atol=1e-7 * sc):
         ctx.violation('replay:clip:value', f'clipped tree {flat.tolist()} differs from the exact {exp.tolist()} for {cfg}', replay={'cfg': cfg})
       elif np.linalg.norm(flat) > bound * (1 + 1e-5):
         ctx.violation('replay:clip:norm', f'norm {np.linalg.norm(flat)} exceeds the bound for {cfg}', replay={'cfg': cfg})
